@@ -1922,11 +1922,9 @@ namespace adept {
       ADEPT_STATIC_ASSERT(!(std::numeric_limits<Type>::is_integer
 	    && IsActive), CANNOT_CREATE_ACTIVE_ARRAY_OF_INTEGERS);
 
-      if (storage_) {
-	storage_->remove_link();
-	storage_ = 0;
-      }
-      // Check requested dimensions
+      // Check requested dimensions before releasing the existing
+      // data, so that the array is left intact if an exception is
+      // thrown
       for (int i = 0; i < Rank; ++i) {
 	if (dim[i] < 0) {
 	  throw invalid_dimension("Negative array dimension requested"
@@ -1938,6 +1936,10 @@ namespace adept {
 	  clear();
 	  return;
 	}
+      }
+      if (storage_) {
+	storage_->remove_link();
+	storage_ = 0;
       }
       dimensions_.copy(dim); // Copy dimensions
       if (force_contiguous) {
